@@ -292,7 +292,12 @@ pub fn is_int_valued(n: &N) -> bool {
 /// Replicate the elements of one array of the document (top two levels) up to
 /// a large length: crosses count thresholds inside projections and functions.
 pub fn scale_some_array(doc: &mut J, src: &mut Src, max: usize) {
-    fn grow(a: &mut Vec<J>, n: usize) {
+    // how the long array is filled: 0 = the existing elements repeated; 1 = every element
+    // wrapped in a one-element list; 2 = scalars, one-element lists, and empty lists balanced
+    // by pairs (as many members after a flatten as before); 3 = the existing elements with
+    // nulls sprinkled in; 4 = all elements equal but the last few
+    let mode = src.below(5);
+    let grow = |a: &mut Vec<J>, n: usize| {
         if a.is_empty() {
             a.push(J::Obj([("a".to_string(), J::int(1))].into_iter().collect()));
             a.push(J::int(2));
@@ -303,10 +308,52 @@ pub fn scale_some_array(doc: &mut J, src: &mut Src, max: usize) {
             a.push(base[i % base.len()].clone());
             i += 1;
         }
-    }
-    let n = match src.below(3) {
+        match mode {
+            1 => {
+                for x in a.iter_mut() {
+                    *x = J::Arr(vec![x.clone()]);
+                }
+            }
+            2 => {
+                let len = a.len();
+                for (k, x) in a.iter_mut().enumerate() {
+                    let keep = x.clone();
+                    *x = match k % 4 {
+                        0 => J::Arr(vec![keep]),
+                        1 if k + 1 < len => J::Arr(vec![]),
+                        2 => J::Arr(vec![keep.clone(), keep]),
+                        _ => {
+                            if matches!(keep, J::Arr(_)) {
+                                J::int(k as i64)
+                            } else {
+                                keep
+                            }
+                        }
+                    };
+                }
+            }
+            3 => {
+                let len = a.len();
+                for k in [0, len / 3, len / 2, len - 1] {
+                    a[k] = J::Null;
+                }
+            }
+            4 => {
+                let first = a[0].clone();
+                let len = a.len();
+                for (k, x) in a.iter_mut().enumerate() {
+                    if k + 3 < len {
+                        *x = first.clone();
+                    }
+                }
+            }
+            _ => {}
+        }
+    };
+    let n = match src.below(4) {
         0 => 100 + src.below(200),
         1 => 1000 + src.below(100),
+        2 => 9 + src.below(70),
         _ => src.size(max).max(64),
     };
     match doc {
